@@ -52,7 +52,7 @@ def signature(cls, kw, path):
                 sig.append((w, "ok", val.to_str()))
             else:
                 n = sppf.count_trees(val.result)
-                sig.append((w, "ok", n, tuple(sorted(val.get_tree(i).to_str() for i in range(min(n, 20))))))
+                sig.append((w, "ok", n, tuple(val.get_tree(i).to_str() for i in range(min(n, 20)))))
         else:
             sig.append((w, type(val).__name__))
     return tuple(sig)
